@@ -83,7 +83,7 @@ Learned == Seeds \cup s.entered
 Cand == Learned \ s.failed
 
 ReqTyp == CASE c.op \in {"gcp", "findpeer", "putvalue", "provide"} -> "FIND_NODE"
-            [] c.op \in {"getvalue", "searchvalue"} -> "GET_VALUE"
+            [] c.op \in {"getvalue", "searchvalue", "getpubkey"} -> "GET_VALUE"
             [] c.op = "findprov" -> "GET_PROVIDERS"
             [] OTHER -> "?"
 
@@ -106,8 +106,12 @@ Init == \E i \in ResetLines : l = i + 1 /\ s = Fresh(Trace[i])
 \* Every new breach is reported once, as  <<"VIOL", run, line, clauses>>, when it
 \* arises; bin/check collects these lines (all offending runs in one pass) and
 \* re-checks each offending run on its own with the property invariant.
-Step(ns) == /\ s' = ns /\ l' = l + 1
-            /\ (ns.viol = s.viol \/ PrintT("VIOL " \o ToString(s.c.t) \o " " \o ToString(l) \o " " \o ToString(ns.viol \ s.viol)))
+\* GetPublicKey asks the target peer directly in parallel with a value lookup; the
+\* direct request cannot be told apart from the lookup's own request to the same
+\* peer, so the lookup-level clauses (C01, C02) are not judged for that operation.
+Relevant(ns) == IF ns.c.op = "getpubkey" THEN {v \in ns.viol : v[1] \in {"C03", "C04"}} ELSE ns.viol
+Step(ns) == /\ s' = [ns EXCEPT !.viol = Relevant(ns)] /\ l' = l + 1
+            /\ (Relevant(ns) = s.viol \/ PrintT("VIOL " \o ToString(s.c.t) \o " " \o ToString(l) \o " " \o ToString(Relevant(ns) \ s.viol)))
 AddViol(V) == [s EXCEPT !.viol = @ \cup V]
 
 ---------------------------------------------------------------------------
@@ -307,6 +311,10 @@ Return ==
          \cup CancelClauses(Ev)
          \cup DeadlineClause(Ev)
          \cup (IF c.op \in {"getvalue", "searchvalue"} THEN ValueReturnClauses(Ev) ELSE {})
+         \cup (IF c.op = "getpubkey"
+               THEN Flag(Ev.err = "" => (Ev.haskey /\ Ev.match), "C04", "b_public_key_does_not_match_peer")
+                    \cup Flag(Ev.haskey => Ev.match, "C04", "b_public_key_does_not_match_peer")
+               ELSE {})
          \cup (IF c.op = "findprov" THEN ProvReturnClauses(Ev) ELSE {})
          \cup (IF c.op \in {"putvalue", "provide"} THEN PutReturnClauses(Ev) ELSE {})
          \cup Flag(s.reqd \subseteq s.sentSearch \cup s.aborted, "C01", "f_request_event_without_rpc")])
